@@ -38,3 +38,8 @@ PROP = dict(
                  "by decoding with an independent reader",
                  "slice::binary_search_by modelled by a textbook binary search (same result on a disjoint ascending table)"],
 )
+
+MANIFEST = dict(
+    text='Coq model of MetricsBuilder (hmtx/hhea), MaxBuilder and update_composite_limits (maxp), head bbox union, composite bbox through stored transforms, loca format choice, OS/2 xAvgCharWidth, first/last char index, Unicode-range and code-page bits, max context. Theorems over arbitrary glyph lists: hmtx reconstructs every (advance, lsb) and numberOfHMetrics is minimal; hhea extrema are attained over exactly the right glyph sets; the composite-limit fixed point equals the recursive definition on every acyclic graph for every HashMap order; head box is the union; composite box covers the resolved outline within 1/2 (exactly for integral outlines); loca format round-trips; OS/2 fields as specified; plus a certified whole-font checker (check_font_sound). Tied to the code on every run: builders through hooks on generated inputs, and every summary field of generated compiled fonts recomputed from a hand-written decoder.',
+    note='Trusted: Coq kernel + vm_compute; hand-written model and correspondence run; hand-written table decoder + read-fonts; Rust harness. No axioms. write-fonts serialisation and cmap subtable choice are observed on decoded fonts only.',
+)
